@@ -40,12 +40,17 @@ SITE = {
     'KF-PLNORM': 'wcmatch/glob.py:457,467,801-805',
     'KF-DOTSEG': 'wcmatch/pathlib.py:216',
     'KF-RGLOBSTAR': 'wcmatch/glob.py:370-380',
-    'KF-NEWLINE': 'wcmatch/glob.py:601; wcmatch/_wcparse.py:222-223',
+    'KF-NEWLINE': 'wcmatch/glob.py:289; wcmatch/_wcparse.py:210-212, 222-223',
     'KF-PARTPREFIX': 'wcmatch/glob.py:289; wcmatch/_wcparse.py:1645-1662',
     'KF-D16': 'wcmatch/glob.py:458,468',
+    'KF-D14': 'wcmatch/glob.py:601',
     'KF-G3': 'wcmatch/_wcmatch.py:106-107',
     'KF-G8': 'wcmatch/_wcmatch.py:95-130',
 }
+
+
+# repaired defects whose old witnesses are still replayed (a reproduction is an unattributed violation)
+FIXED = {'KF-D14', 'KF-D16', 'KF-PLNORM'}
 
 
 def _crosses_link(root: str, q: str) -> bool:
@@ -119,7 +124,7 @@ def _glob_cases(ck, sr_k8, sr, drv, G, P, W, R, root, tree, ents, pats, fl, excl
                 w = calls[0][1] | G.NOUNIQUE
                 stream = K.outcome(lambda: list(G.iglob(pats, flags=w, root_dir=str(obj), exclude=exclude)))
                 if stream[0] == 'ok':
-                    pred = K.model_format(drv, stream[1], True, bool(fl & P.NOUNIQUE))
+                    pred = K.model_format(drv, stream[1], bool(fl & P.NOUNIQUE))
                     got = list(res[1])
                     want = [obj.joinpath(x) for x in pred]
                     sr_k8.evaluations += 1
@@ -127,10 +132,10 @@ def _glob_cases(ck, sr_k8, sr, drv, G, P, W, R, root, tree, ents, pats, fl, excl
                         sr_k8.disagree({'stream': 'K8-seen-set', 'input': case.inp(P, tree),
                                         'code': [str(x) for x in got][:8], 'model': [str(x) for x in want][:8]})
                     # the stated assumption of C16_no_duplicates, on this sample: equal path objects
-                    # ⇒ equal (POSIX-regex) key
+                    # ⇒ equal key
                     for a, b in itertools.combinations(sorted(set(stream[1]))[:8], 2):
                         if obj.joinpath(a) == obj.joinpath(b):
-                            ka = K.model_format(drv, [a, b], False, False)
+                            ka = K.model_format(drv, [a, b], False)
                             _hist(sr_k8, 'assumption hN exercised (equal path objects)')
                             if len(ka) != 1:
                                 sr_k8.disagree({'stream': 'K8-assumption-hN', 'a': a, 'b': b,
@@ -156,7 +161,7 @@ def _glob_cases(ck, sr_k8, sr, drv, G, P, W, R, root, tree, ents, pats, fl, excl
             elif method == 'rglob' and exp[0] == 'ok' and res[0] == 'ok' and K.sig_first_gstar(W, P, pats, fl):
                 # rglob(p) for a p that already starts with a globstar segment must be glob(p); the
                 # specification list equals that, the code's list is short of it
-                # (compared without de-duplication so that KF-PLNORM cannot blur the picture)
+                # (compared without de-duplication)
                 plain = K.outcome(lambda: list(obj.glob(pats, flags=fl | P.NOUNIQUE, exclude=exclude)))
                 ref = K.outcome(lambda: [obj.joinpath(x) for x in G.glob(spec_pats, flags=spec_fl | P.NOUNIQUE,
                                                                           root_dir=str(obj), exclude=exclude)])
@@ -167,21 +172,11 @@ def _glob_cases(ck, sr_k8, sr, drv, G, P, W, R, root, tree, ents, pats, fl, excl
                 kid = 'KF-PARTPREFIX'      # rglob yields everything the specification yields, and more
             if kid is None and is_dir and method == 'rglob' and exp[0] == 'ok' and res[0] == 'ok':
                 diff = [x for x in exp[1] if x not in res[1]] + [x for x in res[1] if x not in exp[1]]
-                if diff and all('\n' in str(x) for x in diff):
-                    kid = 'KF-NEWLINE'     # '$' before a final newline, inside the per-part prefix regex
-            if kid is not None:
-                pass
-            elif exp[0] == 'ok' and res[0] == 'ok' and calls:
-                # (a) the code does what the model-at-code predicts (checked above), and
-                # (b) the model with the POSIX regex agrees with the specification
-                w = calls[0][1] | G.NOUNIQUE
-                stream = K.outcome(lambda: list(G.iglob(pats, flags=w, root_dir=str(obj), exclude=exclude)))
-                if stream[0] == 'ok':
-                    code_pred = [obj.joinpath(x) for x in K.model_format(drv, stream[1], True, bool(fl & P.NOUNIQUE))]
-                    fixed_pred = [obj.joinpath(x) for x in K.model_format(drv, stream[1], False, bool(fl & P.NOUNIQUE))]
-                    lost = [x for x in exp[1] if x not in res[1]]
-                    if code_pred == res[1] and fixed_pred == exp[1] and lost and all('\\' in str(x) for x in lost):
-                        kid = 'KF-PLNORM'
+                if diff and all(any(comp.endswith('\n') for comp in str(x).split('/')) for x in diff):
+                    # '$' before a final newline of a name, inside the per-part prefix regex (`(?:^|$|/)+`) or a
+                    # `!(…)` look-ahead.  (The `re.match` half of this finding, D14, is repaired; a newline
+                    # INSIDE a name is no excuse.)
+                    kid = 'KF-NEWLINE'
             f = Failing(f'Path.{method} differs from glob.glob(root_dir=path) joined onto the path',
                         case.inp(P, tree), _show(exp), _show(got), SITE.get(kid, 'wcmatch/pathlib.py:195-236'))
             _hist(sr, f'failing:{kid or "unattributed"}')
@@ -270,12 +265,10 @@ def _match_vs_rglob(ck, sr, G, P, W, root, tree, ents, pat, fl) -> None:
             if m[1] and not member and K.sig_first_gstar(W, P, pat, fl) and \
                     P.Path(q) in K.outcome(lambda: list(P.Path('.').glob(pat, flags=fl | P.NOUNIQUE)))[1]:
                 kid = 'KF-RGLOBSTAR'        # glob(p) (= what rglob(p) must be here) yields q: rglob lost it
-            elif '\n' in q:
-                kid = 'KF-NEWLINE'
+            elif any(comp.endswith('\n') for comp in q.split('/')):
+                kid = 'KF-NEWLINE'          # a name ENDING in a newline ('$' in the prefix divider / a look-ahead)
             elif K.sig_empty_part(G, W, P, pat, fl) and (truth is None or truth != member or truth != bool(m[1])):
                 kid = 'KF-PARTPREFIX'       # a part that can match '' : rglob and/or match accept any name
-            elif m[1] and not member and fl & P.NODIR and W.RE_WIN_NO_DIR[0].match(q) and not W.RE_NO_DIR[0].match(q):
-                kid = 'KF-D16'              # NODIR's (Windows) no-directory regex drops names ending in a backslash
             elif m[1] and not member and _crosses_link(root, q) and K.sig_has_gstar_segment(W, P, pat, fl):
                 # the implicit `**/` of match() plus a written globstar = two `**` groups: _fs_match lstat-s the
                 # pieces of the second group under the wrong directory and misses the symlinked directory (G3)
@@ -301,11 +294,6 @@ def _match_vs_rglob(ck, sr, G, P, W, root, tree, ents, pat, fl) -> None:
                 if raw[0] == 'ok' and not any(x.rstrip('/') == q for x in raw[1]) and \
                         any('.' in x.split('/') and P.Path(x) == P.Path(q) for x in raw[1]):
                     kid = 'KF-DOTSEG'
-            elif m[1] and not member and '\\' in q and word is not None:
-                # the un-de-duplicated stream does contain q: the Windows-regex seen-key dropped it
-                nu = K.outcome(lambda: [x for x in G.iglob(pat, flags=word | G.NOUNIQUE, root_dir='.')])
-                if nu[0] == 'ok' and any(x.rstrip('/') == q for x in nu[1]):
-                    kid = 'KF-PLNORM'
             f = Failing(f'{cls.__name__}({q!r}).match({pat!r}, REALPATH) is {m[1]} but Path(".").rglob yields it: {member}',
                         {'api': 'match-vs-rglob', 'tree': tree, 'cwd': 'tree root', 'path': q, 'class': cls.__name__,
                          'pattern': pat, 'flags': fl, 'flag_names': K.flag_names(P, fl)},
@@ -420,12 +408,14 @@ def framework_stream(name: str):
 
 
 def _witnesses(ck: Check, sr, G, P, W) -> None:
-    """replay the witness of every listed C16 finding (and the property's own example) on the real code"""
+    """replay the witness of every listed C16 finding, of the repaired ones (`FIXED`: they must not
+    reproduce) and the property's own example on the real code"""
     top = tempfile.mkdtemp(prefix='c16-w-', dir='/tmp')
     root = os.path.join(top, 'w', 'r')
     cwd0 = os.getcwd()
     try:
         os.makedirs(os.path.join(root, 'd', 'ab'))
+        os.makedirs(os.path.join(root, 'c\n'))
         for f in ('d/.hid', 'd/x', 'f.txt', 'xyz', 'b', 'a\\b', 'a\\.\\b', 'x\\', 'a\n'):
             open(os.path.join(root, f), 'w').close()
         os.symlink('f.txt', os.path.join(root, 'lf'))
@@ -435,6 +425,14 @@ def _witnesses(ck: Check, sr, G, P, W) -> None:
 
         def seen(kid: str, ok: bool, what: str, inp: dict, exp, obs) -> None:
             sr.evaluations += 1
+            if kid in FIXED:
+                # a repaired defect: its old witness must NOT reproduce; if it does, that is a violation
+                if ok:
+                    _hist(sr, f'{kid} (fixed) witness REPRODUCED: the defect is back')
+                    ck.report(Failing('repaired defect is back: ' + what, {**inp, 'tree': tree}, exp, obs, SITE[kid]), None)
+                else:
+                    _hist(sr, f'{kid} fixed witness holds')
+                return
             if ok:
                 _hist(sr, f'{kid} witness reproduced')
                 ck.report(Failing(what, {**inp, 'tree': tree}, exp, obs, SITE[kid]), kid)
@@ -456,7 +454,8 @@ def _witnesses(ck: Check, sr, G, P, W) -> None:
         mvr('KF-D7', '**', P.GLOBSTAR, 'lf')
         mvr('KF-D8', '**/', P.GLOBSTAR, 'f.txt')
         mvr('KF-DOTSEG', '.', 0, 'd')
-        mvr('KF-NEWLINE', '@(a|b)', P.EXTGLOB, 'a\n')
+        mvr('KF-NEWLINE', '?', 0, 'c\n')
+        mvr('KF-D14', '@(a|b)', P.EXTGLOB, 'a\n')
         mvr('KF-D16', '*', P.NODIR, 'x\\')
         mvr('KF-RGLOBSTAR', '**/*', P.GLOBSTAR, 'xyz')
         mvr('KF-G8', '**', P.GLOBSTAR | P.GLOBSTARLONG | P.FOLLOW, 'ld/x')
@@ -480,8 +479,8 @@ def _witnesses(ck: Check, sr, G, P, W) -> None:
         seen('KF-NOTDIR', (not a and bool(b)) or c[0] == 'ok', 'Path.glob on a non-directory path short-circuits',
              {'api': 'Path.glob', 'path': 'f.txt', 'patterns': ['./', '/a']}, {'./': b, '/a': 'ValueError'},
              {'./': a, '/a': list(c)})
-        sr.note = 'the witnesses of the listed findings, replayed on the real code on a thirteen-entry tree'
-        sr.distinct += 12
+        sr.note = 'the witnesses of the listed findings, replayed on the real code on a fourteen-entry tree'
+        sr.distinct += 14
     finally:
         os.chdir(cwd0)
         shutil.rmtree(top, ignore_errors=True)
